@@ -155,6 +155,35 @@ def generate(repo):
             raise Tr("get_voxel_index does not return voxel_id")
         defs.append("Definition flat_gen {T : Type} (g : dims (T:=T)) (i : Z * Z * Z) : Z :=\n"
                     "  let '(nb_voxels_x_, nb_voxels_y_, nb_voxels_z_) := d_nb g in let '(voxel_x_id, voxel_y_id, voxel_z_id) := i in\n  %s." % e)
+        # ---- get_neighborhood(ix, iy, iz) of both grids: the clamped block, the nesting of the loops, the id of a visited voxel
+        flat_ = lambda x: re.sub(r"\s+", "", x)
+        nbf = None
+        for cls, t in (("4d", t4), ("3d", t3)):
+            nb = function_body(t, r"get_neighborhood\s*\(\s*const\s+unsigned\s+object_voxel_x_id\s*,\s*const\s+unsigned\s+object_voxel_y_id\s*,\s*const\s+unsigned\s+object_voxel_z_id\s*\)\s*const\s*noexcept\s*\{")
+            a = assignments(nb)
+            for ax in "xyz":
+                if flat_(a.get("start_voxel_%s_id" % ax, "")) != "object_voxel_%s_id==0?0:object_voxel_%s_id-1" % (ax, ax):
+                    raise Tr("%s get_neighborhood: first visited voxel along %s" % (cls, ax))
+                if flat_(a.get("end_voxel_%s_id" % ax, "")) != "object_voxel_%s_id==nb_voxels_%s_-1?nb_voxels_%s_:object_voxel_%s_id+2" % (ax, ax, ax, ax):
+                    raise Tr("%s get_neighborhood: end of the visited voxels along %s" % (cls, ax))
+            fl = flat_(nb)
+            loops = "".join("for(size_tvoxel_%s_id=start_voxel_%s_id;voxel_%s_id<end_voxel_%s_id;voxel_%s_id++){" % ((ax,) * 5) for ax in "xyz")
+            if loops not in fl:
+                raise Tr("%s get_neighborhood: the three loops (x outer, z inner, end exclusive)" % cls)
+            env = {k: "z" for k in ("voxel_x_id", "voxel_y_id", "voxel_z_id", "nb_voxels_x_", "nb_voxels_y_", "nb_voxels_z_")}
+            mv = re.search(r"const\s+size_t\s+voxel_id\s*=\s*([^;]*);", nb)
+            if not mv:
+                raise Tr("%s get_neighborhood: id of a visited voxel" % cls)
+            e, te = E(tokenize(mv.group(1)), env).sum()
+            if nbf is not None and nbf != e:
+                raise Tr("the two grids number a visited voxel differently")
+            nbf = e
+            if cls == "4d" and "std::copy(voxel_content.begin(),voxel_content.end(),std::front_inserter(neighboring_objects));" not in fl:
+                raise Tr("4d get_neighborhood: the content of a voxel is not front-inserted")
+        defs.append("Definition nb_lo_gen (i : Z) : Z := if i =? 0 then 0 else i - 1.")
+        defs.append("Definition nb_hi_gen (n i : Z) : Z := if i =? n - 1 then n else i + 2.")
+        defs.append("Definition flat_nb_gen {T : Type} (g : dims (T:=T)) (i : Z * Z * Z) : Z :=\n"
+                    "  let '(nb_voxels_x_, nb_voxels_y_, nb_voxels_z_) := d_nb g in let '(voxel_x_id, voxel_y_id, voxel_z_id) := i in\n  %s." % nbf)
     except Exception as e:      # noqa
         err = str(e)
     L = ["(* Grid_gen.v — GENERATED by harness/translate_grid.py from /repo/include/uspg/{uspg_abstract,uspg_3d,uspg_4d}.hpp on every run.", "   Do not edit. *)",
@@ -165,7 +194,8 @@ def generate(repo):
         L += ["Definition update_dimensions_4d_gen {T : Type} (N : Num T) (floorZ ceilZ : T -> Z) (delta : T) (voxel_size_ : T) (lo hi : T * T * T) : dims (T:=T) := mkdims lo (0, 0, 0) voxel_size_.",
               "Definition update_dimensions_3d_gen {T : Type} (N : Num T) (floorZ ceilZ : T -> Z) (delta : T) (voxel_size_ : T) (lo hi : T * T * T) : dims (T:=T) := mkdims lo (0, 0, 0) voxel_size_.",
               "Definition idx3_gen {T : Type} (N : Num T) (floorZ ceilZ : T -> Z) (g : dims (T:=T)) (p : T * T * T) : Z * Z * Z := (0, 0, 0).",
-              "Definition flat_gen {T : Type} (g : dims (T:=T)) (i : Z * Z * Z) : Z := 0."]
+              "Definition flat_gen {T : Type} (g : dims (T:=T)) (i : Z * Z * Z) : Z := 0.",
+              "Definition nb_lo_gen (i : Z) : Z := 0.", "Definition nb_hi_gen (n i : Z) : Z := 0.", "Definition flat_nb_gen {T : Type} (g : dims (T:=T)) (i : Z * Z * Z) : Z := 0."]
     else:
         L.append("Definition grid_translation_ok : bool := true.")
         L += defs
